@@ -546,7 +546,7 @@ def findOpt : List OptSpec → Bytes → Nat → Option (Nat × OptSpec)
 /-- a recognised option: its index in the option table and the extracted values -/
 abbrev Seen := List (Nat × List Tok)
 
-/-- sequential scan; `unk k = none` means an unknown word is skipped (SORT) -/
+/-- sequential scan; `unk k = none` means an unknown word is skipped -/
 def scanOpts (tbl : List OptSpec) (unk : Bytes → Option BErr) : List Bytes → Except BErr Seen
   | [] => .ok []
   | a :: rest =>
@@ -882,11 +882,14 @@ def scan (ctor : Bytes) (withKey : Bool) (unk : Fmt) (args : List Bytes) : BRes 
   | true, k :: cur :: opts => go [.s (lossy k)] cur opts
   | _, _ => .error .unreachable
 
-def sortOpts : List OptSpec := [ { kw := s2b "STORE", vals := [aStr], missing := .ignore } ]
+/-- SORT key [ASC] [STORE dst]: the options the executor implements; any other word (ALPHA, DESC,
+    LIMIT, BY, GET, unknown) and a STORE without destination are a syntax error -/
+def sortOpts : List OptSpec :=
+  [ { kw := s2b "STORE", vals := [aStr], missing := .err .syntax }, { kw := s2b "ASC" } ]
 
 def sort : List Bytes → BRes
   | k :: opts => do
-    let s ← scanOpts sortOpts (fun _ => none) opts
+    let s ← scanOpts sortOpts (fun _ => some (.lit .syntax)) opts
     .ok ⟨s2b "Sort", [.s (lossy k), s.opt1 0]⟩
   | _ => .error .unreachable
 
